@@ -2312,17 +2312,28 @@ def scan(
      - V: `tensor(bfloat16)`, `tensor(bool)`, `tensor(complex128)`, `tensor(complex64)`, `tensor(double)`, `tensor(float)`, `tensor(float16)`, `tensor(float8e4m3fn)`, `tensor(float8e4m3fnuz)`, `tensor(float8e5m2)`, `tensor(float8e5m2fnuz)`, `tensor(int16)`, `tensor(int32)`, `tensor(int4)`, `tensor(int64)`, `tensor(int8)`, `tensor(string)`, `tensor(uint16)`, `tensor(uint32)`, `tensor(uint4)`, `tensor(uint64)`, `tensor(uint8)`
     """
     _body_subgraph: Graph = subgraph(
-        [
-            Tensor(
-                var.unwrap_tensor().dtype,
-                (lambda x: x[1:] if x is not None else None)(var.unwrap_tensor().shape),
-            )
-            for var in initial_state_and_scan_inputs[:num_scan_inputs]
-        ]
-        + [
-            Tensor(var.unwrap_tensor().dtype)
-            for var in initial_state_and_scan_inputs[num_scan_inputs:]
-        ],
+        (
+            lambda operands, axes: [
+                var.unwrap_type()
+                for var in operands[: len(operands) - num_scan_inputs]
+            ]
+            + [
+                Tensor(
+                    var.unwrap_tensor().dtype,
+                    (
+                        lambda x, a: x[: a % len(x)] + x[a % len(x) + 1 :]
+                        if x
+                        else None
+                    )(var.unwrap_tensor().shape, axis),
+                )
+                for var, axis in zip(operands[len(operands) - num_scan_inputs :], axes)
+            ]
+        )(
+            initial_state_and_scan_inputs,
+            (scan_input_axes := tuple(scan_input_axes))
+            if scan_input_axes is not None
+            else (0,) * num_scan_inputs,
+        ),
         body,
     )
     return _Scan(
